@@ -19,11 +19,34 @@ fn iter_op(&mut self, kind: u64, frac: u64, cont: u64) -> Result<(), Bad> {
     let keys: Vec<(u64, u64)> = s.model.iter().map(|e| (e.id as u64, e.gen as u64)).collect();
     let vals: Vec<(u64, u64)> = s.model.iter().map(|e| (e.val, 0)).collect();
     let mutate = cont != 4;
+    // for `Clone::clone_from` on the shared iterators: a second map of the same size with foreign
+    // contents; an iterator over it, advanced to the same remaining count, is overwritten by
+    // `clone_from(&it)` and must continue exactly like `it`
+    let decoy: Option<Map<K, V>> = if cont == 3 && kind % 5 != 1 && frac & 2 == 2 && total <= 256 {
+        let _q = Quiet::new();
+        let mut d = Map::with_hasher_in(PlanBuildHasher::new(s.plan), CheckAlloc);
+        for e in &s.model {
+            d.insert(K::new(e.id ^ 0x40_0000, e.gen), V::new(e.val ^ 0xffff_0000));
+        }
+        Some(d)
+    } else {
+        None
+    };
     match kind % 5 {
         0 => {
             // odd fractions go through `IntoIterator for &HashMap`
             let it = if frac & 1 == 1 { (&s.map).into_iter() } else { s.map.iter() };
-            let (got, c) = drive_iter(it, total, prefix, cont, Some(&|i: &hb::hash_map::Iter<'_, K, V>| i.clone()), "iter", |(k, v)| {
+            let (got, c) = drive_iter(it, total, prefix, cont, Some(&|i: &hb::hash_map::Iter<'_, K, V>| match &decoy {
+                Some(d) => {
+                    let mut c = d.iter();
+                    while c.len() > i.len() {
+                        c.next();
+                    }
+                    c.clone_from(i);
+                    c
+                }
+                None => i.clone(),
+            }), "iter", |(k, v)| {
                 k.check("iter key");
                 v.check("iter value");
                 (k.id() as u64, v.get())
@@ -60,7 +83,17 @@ fn iter_op(&mut self, kind: u64, frac: u64, cont: u64) -> Result<(), Bad> {
             }
         }
         2 => {
-            let (got, c) = drive_iter(s.map.keys(), total, prefix, cont, Some(&|i: &hb::hash_map::Keys<'_, K, V>| i.clone()), "keys", |k| {
+            let (got, c) = drive_iter(s.map.keys(), total, prefix, cont, Some(&|i: &hb::hash_map::Keys<'_, K, V>| match &decoy {
+                Some(d) => {
+                    let mut c = d.keys();
+                    while c.len() > i.len() {
+                        c.next();
+                    }
+                    c.clone_from(i);
+                    c
+                }
+                None => i.clone(),
+            }), "keys", |k| {
                 k.check("keys item");
                 (k.id() as u64, k.gen() as u64)
             })?;
@@ -71,7 +104,17 @@ fn iter_op(&mut self, kind: u64, frac: u64, cont: u64) -> Result<(), Bad> {
             }
         }
         3 => {
-            let (got, c) = drive_iter(s.map.values(), total, prefix, cont, Some(&|i: &hb::hash_map::Values<'_, K, V>| i.clone()), "values", |v| {
+            let (got, c) = drive_iter(s.map.values(), total, prefix, cont, Some(&|i: &hb::hash_map::Values<'_, K, V>| match &decoy {
+                Some(d) => {
+                    let mut c = d.values();
+                    while c.len() > i.len() {
+                        c.next();
+                    }
+                    c.clone_from(i);
+                    c
+                }
+                None => i.clone(),
+            }), "values", |v| {
                 v.check("values item");
                 (v.get(), 0)
             })?;
